@@ -1,0 +1,32 @@
+//go:build verif
+
+package verifhook
+
+import (
+	"sync"
+	"time"
+)
+
+var (
+	durMu sync.RWMutex
+	durFn func(string) time.Duration
+)
+
+// SetDuration installs the callback consulted at every Duration (nil removes it).
+func SetDuration(f func(string) time.Duration) {
+	durMu.Lock()
+	durFn = f
+	durMu.Unlock()
+}
+
+// Duration returns the interval the installed callback wants a named timer to
+// run with; 0 keeps the production value.
+func Duration(name string) time.Duration {
+	durMu.RLock()
+	f := durFn
+	durMu.RUnlock()
+	if f != nil {
+		return f(name)
+	}
+	return 0
+}
